@@ -595,6 +595,7 @@ func ruleA23(r *Run, p *Prog) {
 	r.Extra["a23_external_callees_receiving_input_derived_integers"] = ei
 	// recursion is bounded by the input: every call that closes a recursive cycle is preceded by a consuming read
 	a.recursionConsumes(r)
+	ruleDecoderTermination(r, p, a)
 }
 
 // sanitised: every path to `at` carries a lower and an upper bound on v.
@@ -840,4 +841,215 @@ func minConst(v ssa.Value, depth int) int64 {
 		return m
 	}
 	return -1
+}
+
+// ---- termination: loops bounded by an input-derived count consume input in every iteration ----
+
+type consumeInfo struct {
+	a      *a23
+	inPkg  map[*ssa.Function]bool
+	memo   map[*ssa.Function]int // 1 always consumes (or panics), 2 not
+}
+
+func (ci *consumeInfo) consumingInstr(in ssa.Instruction) bool {
+	cc := callCommon(in)
+	if cc == nil {
+		return false
+	}
+	if isCallTo(cc, "(*bufio.Reader).ReadByte") || isCallTo(cc, "io.CopyN") || isCallTo(cc, "io.ReadFull") {
+		return true
+	}
+	if sc := staticCallee(cc); sc != nil && ci.inPkg[sc] {
+		return ci.alwaysConsumes(sc)
+	}
+	return false
+}
+
+// alwaysConsumes: every feasible path from the entry to a return passes a consuming read
+// (paths ending in panic are fine: they end the decode with an error).
+func (ci *consumeInfo) alwaysConsumes(f *ssa.Function) bool {
+	switch ci.memo[f] {
+	case 1:
+		return true
+	case 2, 3:
+		return false
+	}
+	ci.memo[f] = 3 // recursion: assume not (conservative for cycles without own read)
+	ok := true
+	if f.Blocks == nil {
+		ok = false
+	} else {
+		paths, complete := enumPaths(f, 1, 20000)
+		if !complete {
+			ok = false
+		}
+		for _, pa := range paths {
+			if _, isRet := pa.Exit.(*ssa.Return); !isRet {
+				continue
+			}
+			if infeasibleMaskedSwitch(pa) {
+				continue
+			}
+			cons := false
+			for _, in := range pa.Instrs() {
+				if ci.consumingInstr(in) {
+					cons = true
+					break
+				}
+			}
+			if !cons {
+				ok = false
+				break
+			}
+		}
+	}
+	if ok {
+		ci.memo[f] = 1
+	} else {
+		ci.memo[f] = 2
+	}
+	return ok
+}
+
+// infeasibleMaskedSwitch: the path assumes v != c for every value c that v = x & mask can take.
+func infeasibleMaskedSwitch(pa Path) bool {
+	ne := map[ssa.Value]map[int64]bool{}
+	for _, c := range pa.Cmps() {
+		if c.Op != token.NEQ {
+			continue
+		}
+		n, ok := constInt(c.Y)
+		if !ok {
+			continue
+		}
+		if ne[c.X] == nil {
+			ne[c.X] = map[int64]bool{}
+		}
+		ne[c.X][n] = true
+	}
+	for v, set := range ne {
+		bo, ok := v.(*ssa.BinOp)
+		if !ok || bo.Op != token.AND {
+			continue
+		}
+		mask, ok := constInt(bo.Y)
+		if !ok || mask <= 0 || mask > 255 {
+			continue
+		}
+		all := true
+		cnt := 0
+		for x := int64(0); x <= 255; x++ {
+			if x&^mask != 0 {
+				continue
+			}
+			cnt++
+			if !set[x] {
+				all = false
+				break
+			}
+		}
+		if all && cnt > 0 && cnt <= 64 {
+			return true
+		}
+	}
+	return false
+}
+
+func ruleDecoderTermination(r *Run, p *Prog, a *a23) {
+	ci := &consumeInfo{a: a, inPkg: map[*ssa.Function]bool{}, memo: map[*ssa.Function]int{}}
+	for _, f := range a.fns {
+		ci.inPkg[f] = true
+	}
+	n := 0
+	for _, f := range a.fns {
+		for _, h := range f.Blocks {
+			if !isLoopHeader(h) {
+				continue
+			}
+			// is the loop's continuation governed by an input-derived bound, or unbounded (for {})?
+			bounded := false
+			tainted := false
+			for b := range loopBlocks(h) {
+				ifi, ok := b.Instrs[len(b.Instrs)-1].(*ssa.If)
+				if !ok {
+					continue
+				}
+				exits := false
+				for _, s := range b.Succs {
+					if !loopBlocks(h)[s] {
+						exits = true
+					}
+				}
+				if !exits {
+					continue
+				}
+				bounded = true
+				if bo, ok := ifi.Cond.(*ssa.BinOp); ok && (a.taint[bo.X] || a.taint[bo.Y]) {
+					tainted = true
+				}
+				if a.taint[ifi.Cond] {
+					tainted = true
+				}
+			}
+			if bounded && !tainted {
+				continue
+			}
+			// a bound that was the size of a fixed-size read which already succeeded is limited by
+			// the bytes actually present
+			covered := false
+			for b := range loopBlocks(h) {
+				ifi, ok := b.Instrs[len(b.Instrs)-1].(*ssa.If)
+				if !ok {
+					continue
+				}
+				bo, ok := ifi.Cond.(*ssa.BinOp)
+				if !ok {
+					continue
+				}
+				for _, bound := range []ssa.Value{bo.X, bo.Y} {
+					if !a.taint[bound] {
+						continue
+					}
+					eachInstr(f, func(bb *ssa.BasicBlock, i int, in ssa.Instruction) {
+						c, ok := in.(*ssa.Call)
+						if !ok || !ci.consumingInstr(c) {
+							return
+						}
+						for _, arg := range c.Call.Args {
+							if arg == bound && (bb.Dominates(h) && bb != h) {
+								covered = true
+							}
+						}
+					})
+				}
+			}
+			if covered {
+				continue
+			}
+			paths, complete := loopIterPaths(h, 4000)
+			if !complete {
+				r.Ob("A23", FnName(f)+"/loop-consumes", p.Pos(firstPos([]*ssa.BasicBlock{h})), false, true, "cannot enumerate the iterations of a loop whose trip count depends on the input (undecided)")
+				continue
+			}
+			n++
+			okc := true
+			for _, pa := range paths {
+				cons := false
+				for _, b := range pa.blocks {
+					for _, in := range b.Instrs {
+						if ci.consumingInstr(in) {
+							cons = true
+						}
+					}
+				}
+				if !cons {
+					okc = false
+				}
+			}
+			r.Ob("A23", FnName(f)+"/loop-consumes", p.Pos(firstPos([]*ssa.BasicBlock{h})), okc, true, tern(okc, "every iteration of this input-bounded loop consumes at least one input byte (or ends the decode with an error): it stops at end of input", "a loop whose trip count comes from the input can iterate without consuming input: a crafted count makes the decoder spin and produce output out of proportion to its input"))
+		}
+	}
+	if n < 2 {
+		r.Fail("A23", "loop-floor", "-", "fewer than two input-bounded loops found in the decoder (array2Json, map2Json expected)")
+	}
 }
